@@ -5,7 +5,8 @@ from fractions import Fraction
 
 PREFIXES = ["QUECTO", "RONTO", "YOCTO", "ZEPTO", "ATTO", "FEMTO", "PICO", "NANO", "MICRO", "MILLI", "CENTI", "DECI",
             "NONE", "DECA", "HECTO", "KILO", "MEGA", "GIGA", "TERA", "PETA", "EXA", "ZETTA", "YOTTA", "RONNA", "QUETTA"]
-WORDS = ["Alpha", "beta", "GAMMA", "Delta2", "x3", "KiB", "per", "squared", "Unit", "of", "HTTPServer", "a", "Zeta9b", "mu"]
+WORDS = ["Alpha", "beta", "GAMMA", "Delta2", "x3", "KiB", "per", "squared", "Unit", "of", "HTTPServer", "a", "Zeta9b", "mu",
+         "N", "m", "k", "X", "kN", "W", "h"]   # one-letter words: camel-casing erases their boundaries
 SYMS = ["a", "kb", "µx", "°Q", "m²", "Ω", "🜨u", "x/y", "Q.r", "t-1", "ab c", "Å", "é", "w_w"]
 
 
